@@ -905,6 +905,7 @@ func (w *World) processRepoPackageOnce(p *packages.Package, imp types.Importer, 
 			"vcWritten":    "func vcWritten() []byte { return nil }\n",
 			"vcExitCode":   "func vcExitCode() int { return 0 }\n",
 			"vcPrinted":    "func vcPrinted() bool { return false }\n",
+			"vcLoggedError": "func vcLoggedError() bool { return false }\n",
 			"implies":      "func implies(a, b bool) bool { return !a || b }\n",
 		}
 		var hn []string
